@@ -69,12 +69,16 @@ def run(repo: Repo, R: Report) -> None:
         raise AnalysisError(f"{len(sites)} call sites of classify_unknown_config_params found (3 confirmed by reading)")
     # node constructors raise when issues exist
     nmod = repo.module(NODES)
-    for cls_name in ("_DataNode", "_ContextProcessorNode"):
-        init = repo.func(NODES, f"{cls_name}.__init__")
+    # the node constructors by role: the functions of nodes.py that call the shared classifier
+    ctor_qns = sorted({qn for rel, qn, _c, _ok in sites if rel == NODES})
+    if len(ctor_qns) < 2:
+        raise AnalysisError(f"{len(ctor_qns)} function(s) of nodes.py call classify_unknown_config_params (the constructors of the data-node and context-node base classes: 2 confirmed by reading)")
+    for ctor_qn in ctor_qns:
+        init = repo.func(NODES, ctor_qn)
         iv = next((n.targets[0].id for n in walk_no_nested(init) if isinstance(n, ast.Assign) and isinstance(n.targets[0], ast.Name) and isinstance(n.value, ast.Call) and call_attr(n.value) == "classify_unknown_config_params"), "__missing__")
         ifs = [n for n in walk_no_nested(init) if isinstance(n, ast.If) and dotted_name(n.test) == iv]
         ok = bool(ifs) and isinstance(ifs[0].body[-1], ast.Raise) and "InvalidNodeParameterError" in ast.unparse(ifs[0].body[-1]) and "['name']" in ast.unparse(ifs[0].body[-1]).replace('"', "'") and iv in {x.id for x in ast.walk(ifs[0].body[-1]) if isinstance(x, ast.Name)}
-        R.check(ok, r_sib, NODES, f"{cls_name}.__init__", "if issues: raise InvalidNodeParameterError(invalid={names})", "unknown parameters found by the classifier are not rejected at node construction with the same names", init.lineno)
+        R.check(ok, r_sib, NODES, ctor_qn, "if issues: raise InvalidNodeParameterError(invalid={names})", "unknown parameters found by the classifier are not rejected at node construction with the same names", init.lineno)
 
     # ------------------------------------------------------------------ D3
     _type_flow_rules(repo, R)
@@ -90,6 +94,10 @@ def run(repo: Repo, R: Report) -> None:
     _elementwise_wrappers(repo, R)
     # ------------------------------------------------------------------ D11
     _wrappers_forward_resolved(repo, R)
+    # ------------------------------------------------------------------ D12 (interface inspection | run: the mirrored resolver is the one used)
+    _run_side_uses_shared_resolver(repo, R)
+    # ------------------------------------------------------------------ D3 (declaration side of the type flow)
+    _typed_input_typed_output(repo, R)
 
     # ------------------------------------------------------------------ D5
     r_state = R.rule("C02-D5-context-state", "per node, after its own parameters were classified: every created key (incl. a probe's context_key) is recorded as produced by *this* node (under the number the node is reported with) and un-deleted; suppressed keys of context processors become deleted; classification reads the live key_origin/deleted_keys", 7)
@@ -224,7 +232,7 @@ def _effects_order(repo: Repo, R: Report, g: CFG, within, sup: List[ast.AST], un
     b_order = "created keys first, then suppressed keys" if create_first else "suppressed keys first, then created keys"
     runs: List[Tuple[str, str, ast.AST, bool]] = []  # (file, function, first offending call, write_first)
     for mod, qn, F in _outer_functions(repo):
-        logic = _registered(F, "_process_logic")
+        logic = _registered(F, _hook_name(repo, CTXPROC, "ContextProcessor"))
         if len(logic) != 1 or not (_registered(F, "get_created_keys") and _registered(F, "get_suppressed_keys")):
             continue
         writers, deleters = _base_notifiers(repo, mod, F)
@@ -437,7 +445,25 @@ def _inside(node: Optional[ast.AST], root: ast.AST) -> bool:
 # =====================================================================================================
 # D3: type flow
 # =====================================================================================================
-_NF = dict(keep=("_is_compatible",), copyprop="all")
+def _compat_name(repo: Repo) -> str:
+    """Name of the compatibility predicate of the validator module, found by its role: the one module-level function with two
+    leading parameters that tests issubclass(<one of them>, <the other>).  (Falls back to the name it has in the unchanged
+    tree when no / more than one function has that shape.)"""
+    cache = repo.__dict__.setdefault("_c02_compat_name", {})
+    if "name" not in cache:
+        mod = repo.module(VALIDATOR)
+        cands = []
+        for q, n in mod.defs.items():
+            if isinstance(n, FuncNode) and "." not in q and len(n.args.args) >= 2:
+                ps = {a.arg for a in n.args.args[:2]}
+                if any(isinstance(c, ast.Call) and call_attr(c) == "issubclass" and len(c.args) == 2 and {dotted_name(a) for a in c.args} == ps for c in ast.walk(n)):
+                    cands.append(q)
+        cache["name"] = cands[0] if len(cands) == 1 else "_is_compatible"
+    return cache["name"]
+
+
+def _nf_opts(repo: Repo) -> dict:
+    return dict(keep=(_compat_name(repo),), copyprop="all")
 
 
 def _flow_site(repo: Repo, skip: Tuple[str, ...] = ()) -> Optional[Tuple[str, ast.AST, ast.AST, ast.Call]]:
@@ -446,14 +472,14 @@ def _flow_site(repo: Repo, skip: Tuple[str, ...] = ()) -> Optional[Tuple[str, as
     from ..normal import nfunc
 
     mod = repo.module(VALIDATOR)
-    names = [q for q, n in mod.defs.items() if isinstance(n, FuncNode) and "." not in q and q not in ("_is_compatible", "validate_pipeline") + tuple(skip)]
+    names = [q for q, n in mod.defs.items() if isinstance(n, FuncNode) and "." not in q and q not in (_compat_name(repo), "validate_pipeline") + tuple(skip)]
     for qn in names + ["validate_pipeline"]:
         if qn in skip or repo.maybe_func(VALIDATOR, qn) is None:
             continue
-        f = nfunc(repo, VALIDATOR, qn, **_NF)
+        f = nfunc(repo, VALIDATOR, qn, **_nf_opts(repo))
         for lp in walk_no_nested(f):
             if isinstance(lp, ast.For):
-                comp = [c for c in calls_in(lp) if call_attr(c) == "_is_compatible"]
+                comp = [c for c in calls_in(lp) if call_attr(c) == _compat_name(repo)]
                 if comp:
                     return qn, f, lp, comp[0]
     return None
@@ -596,9 +622,9 @@ def _validate_raises(repo: Repo, R: Report, r_flow: str) -> None:
     from ..normal import nfunc
 
     FN = "validate_pipeline"
-    vp = nfunc(repo, VALIDATOR, FN, **_NF)
+    vp = nfunc(repo, VALIDATOR, FN, **_nf_opts(repo))
     I = vp.args.args[0].arg if vp.args.args else None
-    flow = [lp for lp in walk_no_nested(vp) if isinstance(lp, ast.For) and any(call_attr(c) == "_is_compatible" for c in calls_in(lp))]
+    flow = [lp for lp in walk_no_nested(vp) if isinstance(lp, ast.For) and any(call_attr(c) == _compat_name(repo) for c in calls_in(lp))]
     if not flow:
         # the flow function may be too large to inline: accept a call that resolves to it
         site = _flow_site(repo, skip=(FN,))
@@ -776,13 +802,14 @@ def _compat_rule(repo: Repo, R: Report) -> None:
     from ..normal import nfunc
 
     r = R.rule("C02-D3-compatible-implies-gate", "inspection's compatibility test answers yes only when the predecessor's declared output type equals or is a subclass of the node's input type - the condition under which the run-time gate issubclass(type(data), input_type) accepts the data; it has no other accepting branch", 2)
-    ic = nfunc(repo, VALIDATOR, "_is_compatible", copyprop="all")
+    IC = _compat_name(repo)
+    ic = nfunc(repo, VALIDATOR, IC, copyprop="all")
     if len(ic.args.args) < 2:
         raise AnalysisError("_is_compatible: two parameters expected")
     p0, p1 = ic.args.args[0].arg, ic.args.args[1].arg
     iss = [c for c in ast.walk(ic) if isinstance(c, ast.Call) and call_attr(c) == "issubclass"]
     ok = len(iss) >= 1 and all([dotted_name(a) for a in c.args] == [p0, p1] for c in iss)
-    R.check(ok, r, VALIDATOR, "_is_compatible", f"issubclass({p0}, {p1})", "inspection's compatibility rule is not the run-time gate's direction issubclass(output, input)", ic.lineno)
+    R.check(ok, r, VALIDATOR, IC, f"issubclass({p0}, {p1})", "inspection's compatibility rule is not the run-time gate's direction issubclass(output, input)", ic.lineno)
 
     def gate(e: ast.AST) -> Optional[bool]:
         if isinstance(e, ast.Call) and call_attr(e) == "issubclass" and [dotted_name(a) for a in e.args] == [p0, p1] and not e.keywords:
@@ -806,9 +833,9 @@ def _compat_rule(repo: Repo, R: Report) -> None:
                 bad.append(n)
     bad.sort(key=lambda n: n.line)
     for n in bad:
-        R.violation(r, VALIDATOR, "_is_compatible", norm(n.ast), f"`{norm(n.ast)}` can answer 'compatible' without {p0} == {p1} or issubclass({p0}, {p1}) having been established: a pipeline whose data the run-time gate rejects (TypeError) is accepted by validation", n.line, path=g.path_to(seen, n.id))
+        R.violation(r, VALIDATOR, IC, norm(n.ast), f"`{norm(n.ast)}` can answer 'compatible' without {p0} == {p1} or issubclass({p0}, {p1}) having been established: a pipeline whose data the run-time gate rejects (TypeError) is accepted by validation", n.line, path=g.path_to(seen, n.id))
     if not bad:
-        R.ok(r, VALIDATOR, "_is_compatible", "every accepting return is guarded by equality or issubclass(output, input)", "", ic.lineno)
+        R.ok(r, VALIDATOR, IC, "every accepting return is guarded by equality or issubclass(output, input)", "", ic.lineno)
 
 
 # =====================================================================================================
@@ -944,8 +971,9 @@ def _gate_accepts_compatible(repo: Repo, R: Report) -> None:
     from ..normal import nfunc
 
     r = R.rule("C02-D3-gate-rejects-only-incompatible", "in the run path of a node (_process / _process_single_item_with_context in pipeline/nodes/nodes.py) a `raise TypeError` (in the function that tests the data type: any `raise`) is reachable only over a branch on which issubclass(type(payload.data), processor.input_data_type()) is false: data whose type validation accepted (equal to or a subclass of the declared input type) is never rejected at run time by an additional type condition", 1)
-    repo.func(NODES, "_DataNode._process")  # anchor
     mod = repo.module(NODES)
+    gate_fns = 0  # functions found to implement the gate (the anchor of the rule: found by the test, not by the class name)
+    analysed = 0
     for qn, f0 in list(mod.defs.items()):
         if not isinstance(f0, FuncNode) or qn.rsplit(".", 1)[-1] not in ("_process", "_process_single_item_with_context"):
             continue
@@ -959,8 +987,10 @@ def _gate_accepts_compatible(repo: Repo, R: Report) -> None:
             return (dotted_name(t) or "").split(".")[-1] == "TypeError"
 
         rejects = [n for n in g.nodes if n.kind == "stmt" and is_type_error(n.ast)]
-        if not rejects and qn != "_DataNode._process":
+        gate_like = any(isinstance(x, ast.Call) and isinstance(x.func, ast.Name) and x.func.id in ("issubclass", "isinstance") and any(isinstance(y, ast.Attribute) and y.attr == "input_data_type" for y in ast.walk(f)) for x in ast.walk(f))
+        if not rejects and not gate_like:
             continue
+        analysed += 1
         payload = f.args.args[1].arg if len(f.args.args) > 1 else "payload"
         _defs, resolved = _local_defs(f)
 
@@ -990,6 +1020,7 @@ def _gate_accepts_compatible(repo: Repo, R: Report) -> None:
                     blocked.add((n.id, "T"))
                 if _implies(e, not_gate, False):
                     blocked.add((n.id, "F"))
+        gate_fns += bool(gates)
         if gates:
             # the function that implements the gate rejects for no other reason (whatever the exception class)
             rejects = [n for n in g.nodes if n.kind == "stmt" and isinstance(n.ast, ast.Raise) and n.ast.exc is not None]
@@ -999,6 +1030,10 @@ def _gate_accepts_compatible(repo: Repo, R: Report) -> None:
             R.violation(r, NODES, qn, norm(n.ast)[:90], f"this rejection can be reached although issubclass(type({payload}.data), processor.input_data_type()) holds ({gates} test(s) of that condition found): data of a type validation accepts (declared output equal to or a subclass of the declared input type, e.g. NoDataType into a BaseDataType consumer) raises TypeError at run time", n.line, path=g.path_to(seen, n.id))
         if not bad:
             R.ok(r, NODES, qn, f"{len(rejects)} rejecting `raise` statement(s), each only behind a failed issubclass(type(data), input_type)", "", f0.lineno)
+    # no candidate at all leaves the rule without an instance: report.enforce_minimums turns that into an ANALYSIS-ERROR at the
+    # end of the run (unless a violation was located), so a vanished anchor here never hides what later rules find
+    if not gate_fns:
+        R.note(f"C02-D3-gate-rejects-only-incompatible: none of the {analysed} analysed run-path function(s) tests issubclass(type(<payload>.data), <processor>.input_data_type())")
 
 
 # =====================================================================================================
@@ -1244,17 +1279,53 @@ def _kind_tables(f: ast.AST, consts: Dict[str, ast.AST], qn: str, sinks: Optiona
     return found
 
 
+def _hook_name(repo: Repo, rel: str, cls0: str) -> str:
+    """Name of the processing hook of the processor family of module *rel*, by role: the attribute X of the one
+    `inspect.signature(<cls>.X)` the family's run-time enumeration get_processing_parameter_names reads (the method whose
+    parameters the node resolves).  Falls back to the name of the unchanged tree."""
+    cache = repo.__dict__.setdefault("_c02_hook_name", {})
+    if rel not in cache:
+        mod = repo.module(rel)
+        owners = [c for q, c in mod.defs.items() if isinstance(c, ast.ClassDef) and "." not in q and any(isinstance(st, FuncNode) and st.name == "get_processing_parameter_names" for st in c.body)]
+        tops = [c for c in owners if not any(b[1] is o for b in repo.mro(mod, c)[1:] for o in owners)]
+        cnode = tops[0] if len(tops) == 1 else next((c for c in owners if c.name == cls0), None)
+        names: Set[str] = set()
+        if cnode is not None:
+            f = next(st for st in cnode.body if isinstance(st, FuncNode) and st.name == "get_processing_parameter_names")
+            names = {c.args[0].attr for c in calls_in(f) if call_attr(c) == "signature" and len(c.args) == 1 and isinstance(c.args[0], ast.Attribute)}
+        cache[rel] = next(iter(names)) if len(names) == 1 else "_process_logic"
+    return cache[rel]
+
+
+def _family_anchor(repo: Repo, rel: str, cls0: str) -> Tuple[str, str, str]:
+    """(base class, metadata builder, signature reader) of the processor family of module *rel*, found by role: the top-most
+    class of the module that defines the public enumeration `get_processing_parameter_names`, and its pair of methods
+    (builder, reader) where the builder calls the reader on `<cls>._process_logic`.  Whatever is not found that way keeps
+    the name it has in the unchanged tree (the rule then reports what is missing under that name)."""
+    mod = repo.module(rel)
+    owners = [c for q, c in mod.defs.items() if isinstance(c, ast.ClassDef) and "." not in q and any(isinstance(st, FuncNode) and st.name == "get_processing_parameter_names" for st in c.body)]
+    tops = [c for c in owners if not any(b[1] is o for b in repo.mro(mod, c)[1:] for o in owners)]
+    cnode = tops[0] if len(tops) == 1 else next((c for c in owners if c.name == cls0), None)
+    if cnode is None:
+        return cls0, "_define_metadata", "_retrieve_parameter_details"
+    methods = {st.name: st for st in cnode.body if isinstance(st, FuncNode)}
+    pairs = sorted({(m.name, call_attr(c)) for m in methods.values() for c in calls_in(m) if c.args and isinstance(c.args[0], ast.Attribute) and c.args[0].attr == _hook_name(repo, rel, cls0) and call_attr(c) in methods and call_attr(c) != m.name})
+    md_name, in_name = pairs[0] if len(pairs) == 1 else ("_define_metadata", "_retrieve_parameter_details")
+    return cnode.name, md_name, in_name
+
+
 def _parameter_universe(repo: Repo, R: Report) -> None:
     r = R.rule("C02-D6-same-parameter-universe", "per processor family (the two base classes and every function that generates a processor class with both enumerations), the enumeration of `_process_logic` parameters that run time resolves (get_processing_parameter_names) and the one inspection classifies (the `parameters` metadata built by _retrieve_parameter_details, or by the function that generates the class; also where defaults are looked up) keep the same kinds of inspect.Parameter: a parameter the node resolves at run time is one inspection classified (else its context requirement is never reported and its default never found), and vice versa (else a key is reported as required that the node never reads)", 7)
-    for rel, cls in ((DATAPROC, "_BaseDataProcessor"), (CTXPROC, "ContextProcessor")):
-        rt_q, in_q = f"{cls}.get_processing_parameter_names", f"{cls}._retrieve_parameter_details"
+    for rel, cls0 in ((DATAPROC, "_BaseDataProcessor"), (CTXPROC, "ContextProcessor")):
+        cls, md_name, in_name = _family_anchor(repo, rel, cls0)
+        rt_q, in_q = f"{cls}.get_processing_parameter_names", f"{cls}.{in_name}"
         rt_f, in_f = repo.func(rel, rt_q), repo.func(rel, in_q)
         rt, rt_at = _kind_filter(repo, rel, rt_q)
         ins, in_at = _kind_filter(repo, rel, in_q)
         # the metadata is built from the processing method itself
-        md_q = f"{cls}._define_metadata"
+        md_q = f"{cls}.{md_name}"
         md = repo.func(rel, md_q)
-        feeds = [c for c in calls_in(md) if call_attr(c) == "_retrieve_parameter_details" and c.args and isinstance(c.args[0], ast.Attribute) and c.args[0].attr == "_process_logic"]
+        feeds = [c for c in calls_in(md) if call_attr(c) == in_name and c.args and isinstance(c.args[0], ast.Attribute) and c.args[0].attr == _hook_name(repo, rel, cls0)]
         R.check(bool(feeds), r, rel, md_q, "parameters metadata = _retrieve_parameter_details(cls._process_logic, ...)", "the `parameters` metadata inspection classifies is not built from the signature of _process_logic, the method whose parameters run time resolves", md.lineno)
         lost = [k for k in _KINDS if rt[k] != "drop" and ins[k] != "keep"]
         extra = [k for k in _KINDS if ins[k] != "drop" and rt[k] != "keep" and k not in lost]
@@ -1983,7 +2054,7 @@ def _declared_keys_acted_on(repo: Repo, R: Report) -> None:
 
     r = R.rule("C02-D9-declared-keys-acted-on", "in a function that generates a context-processor class (type(name, (Base,), {\"_process_logic\": f, \"get_created_keys\": c, \"get_suppressed_keys\": s, \"get_processing_parameter_names\": p})): every key the declarations c / s list is written / deleted through the base class's observer notifier on every path on which f returns normally, except paths taken only when a declared processing parameter is absent from the resolved arguments (the node raises before the call when a parameter cannot be resolved, so such a path is never run); a condition on the resolved *value* (None, empty, falsy) in front of the write / delete makes the per-node created / suppressed keys inspection reports false of the run", 4)
     for mod, qn, F in _outer_functions(repo):
-        logic = _registered(F, "_process_logic")
+        logic = _registered(F, _hook_name(repo, CTXPROC, "ContextProcessor"))
         if len(logic) != 1:
             continue
         decls = (("created", _registered(F, "get_created_keys")), ("suppressed", _registered(F, "get_suppressed_keys")))
@@ -2257,3 +2328,136 @@ def _wrappers_forward_resolved(repo: Repo, R: Report) -> None:
         c01._rule_wrappers_forward_advertised(repo, R)
     finally:
         R.rule_prefix = ""
+
+
+# =====================================================================================================
+# D12: the run side resolves every processing parameter through the resolver inspection mirrors
+# =====================================================================================================
+def _run_side_uses_shared_resolver(repo: Repo, R: Report) -> None:
+    """D1 compares the first-match chain of inspect_origin with the chain of the run-time resolver.  That comparison says
+    something about a run only if the run side obtains *every* argument of the wrapped processor from that resolver,
+    applied to the node's own configuration and the run context: a node body that takes a value from another place (the live
+    context entry, a literal, another node's configuration) on some path makes the reported origin of that parameter
+    false although both chains still agree.  The decision procedure is the one C01 uses for its single-source rule (value
+    flow of the `**mapping` handed to `<node>.processor.process / operate_context` back to the resolver, through the
+    fetch / build helpers it finds by following the calls); it is re-applied here as the interface condition
+    inspection | run of C02."""
+    from . import c01
+
+    r = R.rule("C02-D12-run-side-uses-mirrored-resolver", "every invocation of a wrapped processor in a node body passes exactly {name: resolver(name) for every processing parameter name}, the resolver being the run-time sibling of inspect_origin applied to the node's own configuration and the run context (helpers that fetch / build are followed): no parameter value is taken from another place on any path - otherwise the origin inspection reports for it (configuration, default, context of node i, initial context) is not where the run-time value comes from", 4)
+    nmod = repo.module(NODES)
+    res = c01._Resolution(repo, R, r)
+    n_proc = 0
+    # node bodies by role: the functions of the module that run a wrapped processor (`<first parameter>.processor.process /
+    # operate_context(..)`), whatever the protocol hook is called
+    bodies = [(q, n) for q, n in nmod.defs.items() if isinstance(n, FuncNode) and any(c01._is_processor_call(c, n) for c in calls_in(n))]
+    for qn, f0 in bodies:
+        f = c01._nf(repo, NODES, qn)
+        if not f.args.args:
+            continue
+        g = CFG(f, may_raise=c01._no_raise)
+        sp = f.args.args[0].arg
+        for c in [c for c in calls_in(f) if c01._is_processor_call(c, f)]:
+            n_proc += 1
+            star = [k.value for k in c.keywords if k.arg is None]
+            use = c01._node_of(g, c)
+            ok, why = bool(star) and use is not None, "no resolved parameters are passed"
+            for s_ in star:
+                if ok:
+                    ok, why, x, _ctxs = res.kwargs(f, g, s_, use)
+                    if ok and x != sp:
+                        ok, why = False, f"the parameters are resolved for `{x}`, not for this node"
+            R.check(ok, r, NODES, qn, norm(c)[:80], f"the wrapped processor computes with values that do not come from the resolver inspection mirrors ({why}): the origin reported for such a parameter (e.g. `configuration` for a configured key of a rename:/delete: node) is not where its run-time value comes from", c.lineno)
+    # no node body found: the rule stays below its minimum and report.enforce_minimums reports the vanished anchor at the end
+
+
+# =====================================================================================================
+# D3 (declaration side): a node that declares a data input type declares an output type
+# =====================================================================================================
+def _none_valued(fn: ast.AST, e: Optional[ast.AST], depth: int = 0) -> Optional[ast.AST]:
+    """the sub-expression that makes *e* possibly None: a literal None, a branch of a conditional expression / an operand
+    of and/or that is one, a local whose (any) assigned value is one"""
+    if e is None:
+        return ast.Constant(value=None)
+    if isinstance(e, ast.Constant):
+        return e if e.value is None else None
+    if isinstance(e, ast.IfExp):
+        return _none_valued(fn, e.body, depth) or _none_valued(fn, e.orelse, depth)
+    if isinstance(e, ast.BoolOp):
+        vals = e.values[-1:] if isinstance(e.op, ast.Or) else e.values
+        return next((x for x in (_none_valued(fn, v, depth) for v in vals) if x is not None), None)
+    if isinstance(e, ast.NamedExpr):
+        return _none_valued(fn, e.value, depth)
+    if isinstance(e, ast.Name) and depth < 4:
+        return next((x for x in (_none_valued(fn, v, depth + 1) for v in assigned_value(fn, e.id)) if x is not None), None)
+    return None
+
+
+def _is_abstract(fn: ast.AST) -> bool:
+    return any((dotted_name(d) or "").split(".")[-1] in ("abstractmethod", "abstractclassmethod") for d in fn.decorator_list)
+
+
+def _typed_input_typed_output(repo: Repo, R: Report) -> None:
+    """The type-flow check of validation anchors on the last node whose declared output type is not None and skips a node
+    while there is no such anchor: `None` is the declaration of a node the data does not pass through a gate of
+    (context-only nodes: neither type declared).  A node class of the family that gates its data at run time
+    (issubclass(type(data), <processor>.input_data_type())) and declares an input type therefore has to declare an output
+    type on every path: a gated node that reports no output type leaves the nodes after it without a predecessor to be
+    compared with (accepted), although their own gates still run."""
+    from ..normal import nfunc
+    from ..engine import qualname_of
+
+    r = R.rule("C02-D3-typed-input-typed-output", "in the class family whose run path gates the data type (the classes under semantiva/pipeline that hand the data to `<node>.processor.process(..)` behind the run-time test issubclass(type(data), input type), and their subclasses - the classes the inspection builder reads input_data_type() / output_data_type() from), a class whose input_data_type can be other than None has an output_data_type that is never None (no `return None` / bare return / fall-off path, no None branch): validation treats a node without output type as one the data flow check may skip and anchors the check of later nodes on the last declared output type", 3)
+
+    def runs_processor(c: ast.Call) -> bool:
+        """`<x>.processor.process(..)` - the call through which a data node hands the (gated) data to its processor"""
+        return isinstance(c.func, ast.Attribute) and c.func.attr == "process" and isinstance(c.func.value, ast.Attribute) and c.func.value.attr == "processor"
+
+    roots: List[Tuple[object, ast.ClassDef]] = []
+    for mod, _qn, c in repo.all_classes():
+        if mod.rel.startswith("semantiva/pipeline/") and any(isinstance(st, FuncNode) and any(runs_processor(x) for x in calls_in(st)) for st in c.body):
+            roots.append((mod, c))
+    # top-most classes only (a subclass that overrides the node body is in the family of its base anyway)
+    roots = [(m, c) for m, c in roots if not any(b[1] is o for b in repo.mro(m, c)[1:] for _m, o in roots)]
+    if not roots:
+        return  # below the rule's minimum: reported by report.enforce_minimums at the end of the run
+    family: List[Tuple[object, ast.ClassDef]] = []
+    for mod, c in roots:
+        for m2, c2 in [(mod, c)] + repo.subclasses(c):
+            if not any(c2 is x[1] for x in family):
+                family.append((m2, c2))
+
+    def normal(m, fn: ast.AST) -> ast.AST:
+        qn = qualname_of(fn)
+        if repo.maybe_func(m.rel, qn) is fn:
+            return nfunc(repo, m.rel, qn)
+        return fn
+
+    def none_path(m, fn: ast.AST) -> Optional[Tuple[str, int]]:
+        """(text, line) of a way the method yields None"""
+        f = normal(m, fn)
+        g = CFG(f, may_raise=lambda part: set())
+        for n in g.nodes:
+            if n.kind == "stmt" and isinstance(n.ast, ast.Return):
+                bad = _none_valued(f, n.ast.value)
+                if bad is not None and n.id in g.reach([g.entry]):
+                    return norm(n.ast)[:80], getattr(n.ast, "lineno", fn.lineno)
+        if g.must_pass([g.entry], [g.ret_exit], lambda n: n.kind == "stmt" and isinstance(n.ast, ast.Return)):
+            return "a path leaves the method without a return value", fn.lineno
+        return None
+
+    outs: Dict[int, Tuple[object, ast.AST, List[str]]] = {}
+    for m, c in family:
+        o = repo.method(m, c, "output_data_type")
+        i = repo.method(m, c, "input_data_type")
+        if o is None or i is None or _is_abstract(o[1]) or _is_abstract(i[1]):
+            continue
+        f_in = normal(i[0], i[1])
+        rets_in = [n for n in walk_no_nested(f_in) if isinstance(n, ast.Return)]
+        if rets_in and all(n.value is None or (isinstance(n.value, ast.Constant) and n.value.value is None) for n in rets_in):
+            continue  # declares no input type at all: a node the data is not gated by
+        outs.setdefault(id(o[1]), (o[0], o[1], []))[2].append(c.name)
+    for m, fn, users in outs.values():
+        bad = none_path(m, fn)
+        qn = qualname_of(fn)
+        R.check(bad is None, r, m.rel, qn, bad[0] if bad else f"output type declared on every path (used by {', '.join(sorted(users)[:4])})", f"a node class that gates its data against a declared input type ({', '.join(sorted(users)[:3])}) can report no output type: validation then skips the node as an anchor of the type flow, so with no typed node in front of it every later node is accepted unchecked although its run-time gate raises TypeError on the data this node lets through", bad[1] if bad else fn.lineno)
